@@ -100,6 +100,10 @@ class BaseTaskPool:
         self._tasks_running: Dict[int, Task[Any]] = {}
         self._tasks_cancelled: Dict[int, Task[Any]] = {}
         self._tasks_ended: Dict[int, Task[Any]] = {}
+        # IDs of running tasks that have not had their first step yet and
+        # those among them that are to be cancelled as soon as they start:
+        self._tasks_unstarted: Set[int] = set()
+        self._tasks_cancel_at_start: Set[int] = set()
 
         # Synchronisation primitives necessary for managing the pool.
         self._enough_room: Semaphore = Semaphore()
@@ -354,7 +358,14 @@ class BaseTaskPool:
                 It is run with the `task_id` as its only positional argument.
         """
         log.info("Started %s", self._task_name(task_id))
+        self._tasks_unstarted.discard(task_id)
         try:
+            if task_id in self._tasks_cancel_at_start:
+                # Cancelled before the first step (see `_cancel_task`).
+                self._tasks_cancel_at_start.discard(task_id)
+                if iscoroutine(awaitable):
+                    awaitable.close()
+                raise CancelledError
             return await awaitable
         except CancelledError:
             await self._task_cancellation(
@@ -427,6 +438,7 @@ class BaseTaskPool:
                     t, awaitable, task_id, end_callback, cancel_callback
                 )
             )
+            self._tasks_unstarted.add(task_id)
         return task_id
 
     def _cleanup_unstarted(
@@ -445,6 +457,8 @@ class BaseTaskPool:
         The cancel and end callbacks are executed in a follow-up task that
         takes the place of the original one among the cancelled tasks.
         """
+        self._tasks_unstarted.discard(task_id)
+        self._tasks_cancel_at_start.discard(task_id)
         if self._tasks_running.get(task_id) is not task:
             return  # the wrapper did run (or the pool was closed)
         if iscoroutine(awaitable):
@@ -535,8 +549,28 @@ class BaseTaskPool:
         """
         tasks = [self._get_running_task(task_id) for task_id in task_ids]
         kw = self._get_cancel_kw(msg)
-        for task in tasks:
-            task.cancel(**kw)
+        for task_id, task in zip(task_ids, tasks):
+            self._cancel_task(task_id, task, **kw)
+
+    def _cancel_task(
+        self,
+        task_id: int,
+        task: Task[Any],
+        **cancel_kw: Any,
+    ) -> None:
+        """
+        Cancels a running task.
+
+        A task that has not had its first step yet is not cancelled directly,
+        because it would then end without ever entering `_task_wrapper` (and
+        `gather` would propagate its `CancelledError`). Instead it is marked
+        to be cancelled by the wrapper as soon as it starts, such that its
+        callbacks are executed and its room in the pool is released as usual.
+        """
+        if task_id in self._tasks_unstarted:
+            self._tasks_cancel_at_start.add(task_id)
+        else:
+            task.cancel(**cancel_kw)
 
     def _cancel_group_meta_tasks(self, group_name: str) -> None:
         """Cancels and forgets all meta tasks associated with the task group."""
@@ -575,10 +609,12 @@ class BaseTaskPool:
         """
         self._cancel_group_meta_tasks(group_name)
         while group_reg:
+            task_id = group_reg.pop()
             try:
-                self._tasks_running[group_reg.pop()].cancel(**cancel_kw)
+                task = self._tasks_running[task_id]
             except KeyError:
                 continue
+            self._cancel_task(task_id, task, **cancel_kw)
         log.debug("%s cancelled tasks from group %s", str(self), group_name)
 
     def cancel_group(self, group_name: str, msg: str | None = None) -> None:
